@@ -143,6 +143,18 @@ Fixpoint glbo_loop (fuel : nat) (ss : scanner) (offset line : Z) (linestr : list
       end
   end.
 
+(* the range loop of yamlParseError.Error: i = byte index of the current rune, total = len(contents) *)
+Fixpoint yaml_offset_loop (fuel : nat) (s : list N) (i index total : Z) : Z :=
+  match fuel, s with
+  | S f, _ :: _ =>
+      if index =? 0 then i
+      else let w := Z.max (snd (decode_rune s)) 1 in
+           yaml_offset_loop f (zdrop w s) (i + w) (index - 1) total
+  | _, _ => total
+  end.
+Definition yaml_offset (contents : list N) (index : Z) : Z :=
+  yaml_offset_loop (List.length contents) contents 0 index (zlen contents).
+
 Section Width.
 Variable swidth : list N -> Z.     (* runewidth.StringWidth *)
 
@@ -198,8 +210,10 @@ Definition json_error_header (fname contents : list N) (errline : Z) (e : json_e
   let line := line + errline in
   render (codes "invalid json: ") fname contents (1 <? line) fname linestr line column.
 
-(* yamlParseError.Error(); index = pe.Index / ue.Index (0 when neither error type matches) *)
+(* yamlParseError.Error(); index = pe.Index / ue.Index (0 when neither error type matches).
+   The index counts characters:  offset := len(contents); for i := range contents { if index == 0 { offset = i;
+   break }; index-- }  (range: one iteration per rune, i = its first byte; invalid bytes advance by 1) *)
 Definition yaml_error_header (fname contents : list N) (index : Z) : list N :=
-  let '(linestr, line, column) := getLineByOffset contents (index + 1) in
+  let '(linestr, line, column) := getLineByOffset contents (yaml_offset contents index + 1) in
   render (codes "invalid yaml: ") fname contents true fname linestr line column.
 End Width.
